@@ -2,17 +2,28 @@
 
 I : Lean spec inflater  vs Go reference inflater vs compress/flate (valid, faulty, truncated, flipped, dictionary streams)
 W : Lean Writer control model with replayed leaves vs the implementation, lock-step counters/results/destination calls
+R : Lean Reader control model (bufio + step/Read bookkeeping) with a replayed decoder vs the implementation, lock-step
+K : Lean checksum / gzip / zlib header and trailer definitions vs hash/crc32, hash/adler32 and fastgo's container bytes
 """
 KINDS = {
     "C01": ["I", "W"],
-    "C02": ["I"],
-    "C03": ["I"],
+    "C02": ["I", "R"],
+    "C03": ["I", "R"],
+    "C04": ["R"],
+    "C05": ["R"],
+    "C06": ["K"],
+    "C07": ["K"],
+    "C08": ["K"],
     "C09": ["W"],
     "C10": ["I", "W"],
+    "C11": ["R"],
     "C12": ["W"],
+    "C13": ["R"],
     "C14": ["W"],
+    "C15": ["R"],
     "C16": ["W"],
+    "C18": ["R", "W"],
     "C19": ["I", "W"],
     "C20": ["W"],
 }
-COUNT = {"I": (300, 3000), "W": (600, 6000)}
+COUNT = {"I": (300, 3000), "W": (600, 6000), "R": (400, 4000), "K": (600, 6000)}
